@@ -177,19 +177,31 @@ def no_duplicate_attrs(prog, chk):
     # (4) AttrMap::insert appends only when the key is absent
     ins = prog.body(AM + "::insert")
     chk.touch(ins)
-    pushes = ins.call_sites(R.path_endswith("Vec::<T, A>::push"))
+    pushes = ins.call_sites(lambda c: c.path.endswith("Vec::<T, A>::push") or c.path.endswith("Vec::<T, A>::insert"))
     finds = ins.call_sites(lambda c: c.path.split("::")[-1] in ("find", "position", "contains_key", "any"))
     ok = False
-    if len(pushes) == 1 and finds:
-        fb, ft, fc = finds[0]
+    tested = 0
+    for (fb, ft, fc) in finds:
+        if not ft.get("dest") or ft["dest"][1]:
+            continue
         sw = R.find_switch_on_discr(ins, ft["t"], ft["dest"][0])
+        if not sw:
+            sws = R.discr_switches_of(ins, ft["dest"][0])
+            sw = sws[0] if len(sws) == 1 else None
         if sw:
             sb, st = sw
             m = {v: tgt for v, tgt in st["vals"]}
-            some_t = m.get(1)
-            if some_t is not None:
-                ok = pushes[0][0] not in ins.reach([some_t], avoid=[st["otherwise"]] if st["otherwise"] != some_t else [])
-    chk.ob(ok, "A13.attrmap-unique", "AttrMap::insert", ins.where(), "AttrMap::insert updates an existing key in place and appends only when the key is absent (no duplicate keys)", "AttrMap::insert can append a key that is already present (duplicate attribute in the output)")
+            some_t = m.get(1, st["otherwise"] if 0 in m else None)
+            none_t = m.get(0, st["otherwise"] if 1 in m else None)
+            if some_t is not None and none_t is not None and some_t != none_t:
+                tested += 1
+                # no element is added on the way from "found" (the search that guards the adds: one is enough)
+                if pushes and not any(pb in ins.reach([some_t], avoid=[none_t]) for (pb, _pt, _pc) in pushes):
+                    ok = True
+    if not ok and (not pushes or not tested):
+        chk.undecided("A13.attrmap-unique", "AttrMap::insert", ins.where(), f"AttrMap::insert: {len(pushes)} place(s) that add an entry, {tested} search result(s) tested in a form this rule reads: whether an entry is added only when the key is absent is not decided")
+    else:
+      chk.ob(ok, "A13.attrmap-unique", "AttrMap::insert", ins.where(), "AttrMap::insert updates an existing key in place and appends only when the key is absent (no duplicate keys)", "AttrMap::insert can append a key that is already present (duplicate attribute in the output)")
     w = R.field_writers(prog, "attrs", AM)
     allowed = {AM + "::insert", AM + "::pop", AM + "::reorder", AM + "::new"}
     extra = sorted(k for k in w if k not in allowed and "as std::convert::From" not in k and "FromIterator" not in k and "Default" not in k and "Clone" not in k and "{closure" not in k)
